@@ -183,7 +183,9 @@ def rule_allow_incomplete(facts):
                     if st.k == "assign" and not st.place.proj and st.place.local == dl and st.rv.k == "discriminant" and \
                             st.rv.place.ty.k == "adt" and (st.rv.place.ty.name or "").endswith("stream::State") and vidx:
                         e_ = dict(blk.term.targets).get(vidx[0], blk.term.otherwise)
-                        data_arm = e_
+                        # (drop elaboration may test the discriminant again on the way out: the arm that leads to the flush counts)
+                        if fin and (c.dominates(e_, fin[0]) or e_ == fin[0]):
+                            data_arm = e_
     oks = [o for o, k in flow.ret_sources(f).items() if k in ("ok", "any", "other")]
     if data_arm is not None and oks:
         mine = [x for x in oks if x in c.reachable_from(data_arm)]
